@@ -42,8 +42,8 @@ def cells(tier, seed):
     reps = 1 if tier == "quick" else 6
     for ak in build.HET_KINDS:
         for (Dx, Dy, Da, Dk) in (SHAPES_Q if tier == "quick" else SHAPES_T):
-            if Dx == 2 and ak in ("het_step", "het_relu"):
-                # truth by quadrature needs kink-split panels (Dx = 1); coherence only
+            if Dx == 2 and ak in ("het_step", "het_relu") and Dk > 1:
+                # truth by quadrature needs kink-split panels (one kink line); coherence only
                 out.append({"ak": ak, "Dx": Dx, "Dy": Dy, "Da": Da, "Dk": Dk, "mode": "coherence",
                             "reps": reps, "group": [ak, Dx, Dy, Da, Dk], "cost": 1.0})
                 continue
@@ -104,6 +104,30 @@ def truth(t, mu_x, S_x, y, Dx):
         for order in (32, 48):
             X, W = panel_nodes(mu_x[0], math.sqrt(S_x[0, 0]), kinks, order=order, width=9.0)
             vals.append(float(W @ f(X)))
+        return vals[1], abs(vals[0] - vals[1]) <= 1e-9 * (1 + abs(vals[1]))
+    if Dx == 2 and t.Dk == 1 and t.kind in ("het_step", "het_relu"):
+        # one kink line w'x + w0 = 0: x = mu + L z, rotate z so that the link depends on the first
+        # rotated coordinate only; Gauss-Legendre panels split at the kink in that coordinate,
+        # Gauss-Hermite in the other
+        L_ = np.linalg.cholesky(S_x)
+        w, w0 = t.W[0, 1:], t.W[0, 0]
+        a = L_.T @ w
+        s_ = float(np.linalg.norm(a))
+        if s_ < 1e-12:
+            u1, kinks = np.array([1.0, 0.0]), []
+        else:
+            u1 = a / s_
+            kinks = [-(float(w @ mu_x) + w0) / s_]
+        u2 = np.array([-u1[1], u1[0]])
+        vals = []
+        for (o1, o2) in ((32, 40), (48, 60)):
+            Z1, W1 = panel_nodes(0.0, 1.0, kinks, order=o1, width=9.0)
+            z2, w2 = np.polynomial.hermite_e.hermegauss(o2)
+            w2 = w2 / math.sqrt(2 * math.pi)
+            Zg = Z1[:, 0][:, None, None] * u1[None, None, :] + z2[None, :, None] * u2[None, None, :]
+            X = mu_x[None, None, :] + np.einsum("ab,ijb->ija", L_, Zg)
+            F = f(X.reshape(-1, 2)).reshape(len(W1), len(w2))
+            vals.append(float(W1 @ F @ w2))
         return vals[1], abs(vals[0] - vals[1]) <= 1e-9 * (1 + abs(vals[1]))
     try:
         v, ok = orc.gh_expect(f, mu_x, S_x, orders=(36, 50), rel=1e-9)
@@ -194,7 +218,8 @@ def run_cell(cell, rec, seed):
         # after 8e-9 and 6e-9 at 1e-1 and 1e-2), beyond the 1e-7 absolute allowance the property
         # grants to the quadrature. For these two links the smallest judged scale is 1e-2 (the
         # pair eps = 1e-1 of the decay criterion); the smooth links are judged down to 1e-3.
-        scales = (1.0, 0.3, 0.1, 0.01) + ((0.001, 0.0) if ak in ("het_exp", "het_cosh") else ())
+        scales = (1.0, 0.3, 0.1, 0.03, 0.01) + (
+            (0.003, 0.001, 0.0) if ak in ("het_exp", "het_cosh") else ())
         if cell.get("far_x"):
             scales = (1.0,)
         if cell.get("A_kappa"):
@@ -254,11 +279,18 @@ def run_cell(cell, rec, seed):
         for e2 in (0.01, 0.001):
             if e2 not in gaps:
                 continue
-            larger = [e for e in gaps if e > e2 * 5]
+            # the asymptotic regime can begin below 0.1 (observed: a rectified unit with offset
+            # 0.2 whose input only stops crossing zero below 0.09: gaps 3.7e-4, 2.3e-4, 2.4e-5,
+            # 2.1e-6, 2.3e-7 at 0.1, 0.03, 0.01, 0.003, 0.001 - a clean factor 9 to 11 per half
+            # decade from 0.03 on). So the half decade above e is a reference too, with the square
+            # root of the property's slack: gap(e) <= sqrt(100/30) gap(3e) / 9 (a linearly
+            # decaying gap has 1/3 there and still fails).
+            larger = [e for e in gaps if e > e2 * 2.5]
             if not larger:
                 continue
+            slack = lambda e: (100.0 / 30.0) if e > e2 * 5 else math.sqrt(100.0 / 30.0)
             bound = np.max(np.stack([np.max(np.maximum(gaps[e], 0.0)) * (e2 / e) ** 2
-                                     * (100.0 / 30.0) for e in larger])) * np.ones_like(gaps[e2])
+                                     * slack(e) for e in larger])) * np.ones_like(gaps[e2])
             d = dict(info, N=N, eps=e2, gap=gaps[e2],
                      gaps_at_larger_scales={str(e): gaps[e] for e in larger})
             rec.leq(f"gap({e2}) decays quadratically", gaps[e2], bound, allow=2e-7, detail=d,
